@@ -100,6 +100,7 @@ type VerifC12Entry struct {
 	Sel       *VerifC12Selector
 	Snd       *VerifC12Capture
 	Desc      string
+	Excl      []Subnet // the exclusion list the processor was configured with
 }
 
 var verifC12Metrics *metrics.Metrics
@@ -129,6 +130,7 @@ func VerifC12EntrySetup() (*metrics.Metrics, func()) {
 }
 
 var verifC12Procs = map[string]*RegProcessor{}
+var verifC12Excl = map[string][]Subnet{}
 
 // VerifC12EntryCase: request number i of a stream, with the processor it goes to.  source is what the
 // entry point expects in RegistrationSource (the DNS server decides by it), 0 = unset / random.
@@ -136,7 +138,7 @@ func VerifC12EntryCase(stream string, i int, source pb.RegistrationSource) *Veri
 	r := vlib.NewRand(fmt.Sprintf("%s/%d", stream, i))
 	e := &VerifC12Entry{Auth: r.Bool(), LibVer: 4, Forged: r.Chance(2, 3)}
 	enforce := r.Chance(1, 2)
-	cfg := r.Intn(3)
+	cfg := r.Intn(5)
 	key := fmt.Sprintf("%v/%v/%d", e.Auth, enforce, cfg)
 	e.Sel = &VerifC12Selector{V4: net.ParseIP([]string{"203.0.113.7", "198.18.5.9", "192.0.2.200"}[r.Intn(3)]),
 		V6: net.ParseIP(fmt.Sprintf("2001:db8:77::%x", r.Intn(60000)+1)), RandPort: r.Chance(3, 4)}
@@ -155,8 +157,14 @@ func VerifC12EntryCase(stream string, i int, source pb.RegistrationSource) *Veri
 			subs = []Subnet{mk("10.1.0.0/24", 1, 443, "Min_Transport", prefix.Min), mk("10.2.0.0/24", 2.5, 80, "Min_Transport", prefix.Min),
 				mk("10.3.0.0/24", 1, 22, "Prefix_Transport", prefix.OpenSSH2), mk("10.4.0.0/24", 0.5, 53, "Prefix_Transport", prefix.DNSOverTCP)}
 		}
-		if cfg == 2 {
+		switch cfg {
+		case 2:
 			excl = []Subnet{mk("203.0.113.0/24", 0, 0, "", prefix.Min)}
+		case 3:
+			// written like the entry of the shipped reg_config.toml: every field set
+			excl = []Subnet{mk("203.0.113.0/24", 28.7, 80, "Min_Transport", prefix.Min)}
+		case 4:
+			excl = []Subnet{mk("198.18.0.0/15", 1, 443, "Prefix_Transport", prefix.GetLong), mk("203.0.113.0/24", 0, 0, "Obfs4_Transport", prefix.Min)}
 		}
 		var key2 ed25519.PrivateKey
 		if e.Auth {
@@ -170,7 +178,9 @@ func VerifC12EntryCase(stream string, i int, source pb.RegistrationSource) *Veri
 		_ = p.AddTransport(pb.TransportType_Min, min.Transport{})
 		_ = p.AddTransport(pb.TransportType_Prefix, prefix.DefaultSet())
 		verifC12Procs[key] = p
+		verifC12Excl[key] = append([]Subnet(nil), excl...)
 	}
+	e.Excl = verifC12Excl[key]
 	p.sock, p.ipSelector = e.Snd, e.Sel
 	e.Proc = p
 	tr := pb.TransportType_Min
@@ -272,6 +282,13 @@ func (e *VerifC12Entry) Check(got *pb.RegistrationResponse, wantGen uint32) (fai
 		// without subnet overrides the address is the selector's
 		if !e.Proc.enforceSubnetOverrides && *got.Ipv4Addr != binary.BigEndian.Uint32(e.Sel.V4.To4()) {
 			fail("C12:substitute-outside-configured", "the IPv4 phantom is not the selector's although subnet overrides are off")
+		}
+		// a phantom inside any configured exclusion is never replaced, whatever else the entry says
+		for _, x := range e.Excl {
+			if x.CIDR.IPNet.Contains(e.Sel.V4) && *got.Ipv4Addr != binary.BigEndian.Uint32(e.Sel.V4.To4()) {
+				fail("C12:excluded-replaced", fmt.Sprintf("phantom %v lies in the excluded subnet %v (transport=%q weight=%v port=%d) but the client was given %v",
+					e.Sel.V4, x.CIDR.IPNet, x.Transport, x.Weight, x.Port, uint32ToIPv4(got.Ipv4Addr)))
+			}
 		}
 	}
 	return
